@@ -34,3 +34,15 @@ Print Assumptions C06_low_r.
 Theorem C06_order : order = secp_n.
 Proof. exact order_is_n. Qed.
 Print Assumptions C06_order.
+
+(* ---- validity is preserved by the low-S rule (over the abstract curve, Spec/Curve.v): a signature
+   (r, s) that verifies under Q still verifies after s is replaced by n - s, hence after normalisation.
+   Together with C03/C04 (the digest is the consensus one) and the correspondence (the external signer's
+   (r, s) verifies under libsecp256k1) this is the "verifies under the signer's public key" clause. *)
+From BU Require Import Model.EC Model.Msg Spec.Curve Proofs.EcdsaSymFacts.
+Theorem C06_low_s_valid : forall p n add lift G on, curve_laws p n add lift G on ->
+  forall inv : Z -> Z, (forall a, a mod n <> 0 -> (a * inv a) mod n = 1) -> (forall a, 0 <= inv a < n) -> n < 2 ^ 256 ->
+  forall Q e r s, on Q -> 0 <= e -> ecdsa_verify n add G inv Q e r s = true ->
+  ecdsa_verify n add G inv Q e r (if s <=? n / 2 then s else n - s) = true.
+Proof. intros p n add lift G on L inv H1 H2 H3. exact (ecdsa_normalised_valid p n add lift G on L inv H1 H2 H3). Qed.
+Print Assumptions C06_low_s_valid.
